@@ -36,6 +36,7 @@ RULE = (
     "for fault-free runs a second session on the same gateway object must behave the same; Hypothesis adds generated T/k/registries. Non-trivial = exit while the saver is not parked in its sleep, or an injected fault, or "
     "virtual time crossing a save boundary; distinct = distinct case JSON."
     " Round 5: the body may raise any class of the library's exception hierarchy or common built-ins (`body_exc`); a `bystander` gateway in the same loop must keep saving on schedule and leave nothing behind."
+    ' Round 6: `new_loop` - after the first session the same gateway object runs a full session under a second event loop.'
 )
 ASSUMPTIONS = [
     "threads are replaced by an inline executor: outcomes are the same at file-operation granularity, thread races inside aiofiles are not explored",
